@@ -28,7 +28,16 @@ def main():
     except core.MachineryError as e:
         print("MACHINERY-ERROR property=%s: %s" % (prop, e))
         sys.exit(2)
-    except Exception:
+    except Exception as e:
+        tb = traceback.extract_tb(sys.exc_info()[2])
+        lib = [f for f in tb if f.filename.startswith(os.path.join(core.REPO, "geomdl"))]
+        if lib:
+            # the exception was raised inside the library under test while a case was being replayed: that is a verdict on the
+            # library (a valid call failed), not a failure of the machinery
+            ctx.violate("%s:%s" % (os.path.basename(lib[-1].filename), lib[-1].name), ["raises", "uncaught_in_harness"],
+                        {"note": "exception escaped the per-call guards"}, {"exception": repr(e)[:300], "where": "%s:%d" % (lib[-1].filename, lib[-1].lineno)})
+            rc = ctx.finish()
+            sys.exit(rc if rc else 1)
         traceback.print_exc()
         print("MACHINERY-ERROR property=%s: unexpected exception in the harness" % prop)
         sys.exit(2)
